@@ -76,17 +76,19 @@ Section Sky.
     symmetry. apply surjective_pairing.
   Qed.
 
-  (* contracts *)
+  (* contracts; okLat is the set of latitudes for which the offset oracle is exact (all of [-pi/2, pi/2] for an
+     ideal oracle; regular branch + exact poles for astropy's formulas, see P_Coords_Astropy.v) *)
+  Variable okLat : R -> Prop.
   Hypothesis Hsep : forall l1 b1 l2 b2,
     o_separation O l1 b1 l2 b2 = acos (vdot (dirv l1 b1) (dirv l2 b2)).
   Hypothesis Hoff : forall lon lat pa d,
-    - (PI / 2) <= lat <= PI / 2 -> 0 <= d <= PI ->
+    okLat lat -> 0 <= d <= PI ->
     dirv (fst (o_offset_by O lon lat pa d)) (snd (o_offset_by O lon lat pa d)) = offset_point lon lat pa d
     /\ 0 <= fst (o_offset_by O lon lat pa d) < 2 * PI
     /\ - (PI / 2) <= snd (o_offset_by O lon lat pa d) <= PI / 2.
 
   Lemma rses_dirv sra sdec tra tdec rra rdec :
-    - (PI / 2) <= sdec <= PI / 2 ->
+    okLat sdec ->
     dirv (fst (rses N O sra sdec tra tdec rra rdec)) (snd (rses N O sra sdec tra tdec rra rdec))
     = offset_point sra sdec (o_position_angle O tra tdec rra rdec) (acos (vdot (dirv tra tdec) (dirv rra rdec))).
   Proof.
@@ -94,7 +96,7 @@ Section Sky.
   Qed.
 
   Theorem rses_preserves_sep sra sdec tra tdec rra rdec :
-    - (PI / 2) <= sdec <= PI / 2 ->
+    okLat sdec ->
     angsep N (fst (rses N O sra sdec tra tdec rra rdec)) (snd (rses N O sra sdec tra tdec rra rdec)) sra sdec None
     = angsep N rra rdec tra tdec None.
   Proof.
@@ -104,7 +106,7 @@ Section Sky.
   Qed.
 
   Theorem rses_range sra sdec tra tdec rra rdec :
-    - (PI / 2) <= sdec <= PI / 2 ->
+    okLat sdec ->
     0 <= fst (rses N O sra sdec tra tdec rra rdec) < 2 * PI
     /\ - (PI / 2) <= snd (rses N O sra sdec tra tdec rra rdec) <= PI / 2.
   Proof.
@@ -122,7 +124,7 @@ Section Sky.
       = vdot (dirv l2 b2) (east l1 b1).
 
   Theorem rses_frame sra sdec tra tdec rra rdec :
-    - (PI / 2) <= sdec <= PI / 2 ->
+    okLat sdec ->
     let out := rses N O sra sdec tra tdec rra rdec in
     vdot (dirv (fst out) (snd out)) (dirv sra sdec) = vdot (dirv rra rdec) (dirv tra tdec)
     /\ vdot (dirv (fst out) (snd out)) (north sra sdec) = vdot (dirv rra rdec) (north tra tdec)
